@@ -342,7 +342,8 @@ Section Iso.
       + apply auth_part_rest; assumption.
       + apply msg_part_rest; exact H.
     - destruct (find_conn (s_conns st) c); [apply drop_rest; exact H|exact H].
-    - apply expire_rest. exact H.
+    - pose proof (expire_rest (mkSt (s_now st + d) (s_conns st) (s_core st)) H) as H1. destruct (expire P cf _) as [st1 o1]. cbn [fst] in H1.
+      destruct (o_tick P (s_core st1) d) as [k o2]. cbn [fst]. exact H1.
   Qed.
 
   Theorem run_rest (st : state A S) h : Rest st -> Rest (fst (run P cf st h)).
@@ -397,7 +398,8 @@ Section Iso.
       + apply Hmsg; exact Hx.
     - destruct (find_conn (s_conns st) c'); [apply (Hdrop st _ (fun z H => or_introl H))|auto].
     - intros z Hz. unfold expire in Hz. pose proof (expire_list_in (s_now st + d) (s_conns st) (s_core st) z) as Hin.
-      cbn [s_now s_conns s_core] in Hz. destruct (expire_list P cf _ _ _) as [[kept k] o]. cbn [fst s_conns] in *. left. apply Hin. exact Hz.
+      cbn [s_now s_conns s_core] in Hz. destruct (expire_list P cf _ _ _) as [[kept k] o]. cbn [fst s_conns s_core] in *.
+      destruct (o_tick P k d) as [k2 o2]. cbn [fst s_conns] in Hz. left. apply Hin. exact Hz.
   Qed.
 
   (* C10: "nothing of the invalid message (nor anything after it) is dispatched" — bus level:
